@@ -203,6 +203,38 @@ def prop_oracle(c):
     return None
 
 
+def der_variants(r, s, n):
+    """[(name, der)]: non-canonical / out-of-range spellings of the two INTEGERs of a valid (r, s).  The numbers a decoder
+    extracts must be the WHOLE content of each INTEGER: extra high-order bytes, r + n, r + 2^256, fixed-width fields and
+    long-form lengths either decode to the same numbers (then the verdict is that of (r, s)) or to different ones (then
+    the equation decides) - never 'the low 32 bytes'."""
+    def dl(k):
+        return bytes([k]) if k < 128 else b"\x81" + bytes([k])
+
+    def mini(v):
+        b = v.to_bytes((v.bit_length() + 7) // 8 or 1, "big")
+        return b"\0" + b if b[0] & 0x80 else b
+
+    def seq(cr, cs, extra=b""):
+        body = b"\x02" + dl(len(cr)) + cr + b"\x02" + dl(len(cs)) + cs + extra
+        return b"\x30" + dl(len(body)) + body
+    f32 = lambda v: v.to_bytes(32, "big")
+    forms = [("pad0", lambda v: b"\0" + mini(v)), ("pad00", lambda v: b"\0\0" + mini(v)),
+             ("fix32", f32), ("pad0-fix32", lambda v: b"\0" + f32(v)),
+             ("hi01-33", lambda v: b"\x01" + f32(v)), ("hi0100-34", lambda v: b"\x01\0" + f32(v)),
+             ("hi80-33", lambda v: b"\x80" + f32(v)), ("hiff-40", lambda v: b"\xff" * 8 + f32(v)),
+             ("plus-n", lambda v: mini(v + n)), ("plus-2n", lambda v: mini(v + 2 * n)),
+             ("plus-2^256", lambda v: mini(v + (1 << 256))), ("hi01-min", lambda v: b"\x01" + mini(v))]
+    out = []
+    for name, f in forms:
+        out.append(("r-" + name, seq(f(r), mini(s))))
+        out.append(("s-" + name, seq(mini(r), f(s))))
+        out.append(("rs-" + name, seq(f(r), f(s))))
+    out.append(("trailing-in-seq", seq(mini(r), mini(s), b"\x02\x01\x01")))
+    out.append(("longform-lengths", b"\x30\x81" + bytes([len(seq(mini(r), mini(s))) - 2]) + seq(mini(r), mini(s))[2:]))
+    return out
+
+
 def gen_cases(rng, tier):
     T = tier == "thorough"
     out = []
@@ -251,6 +283,10 @@ def gen_cases(rng, tier):
         out.append(case("secp-sigv-flag-changed", "sig_verify", "secp", sg[:-1] + bytes([fl ^ 0x80]), sec1(Q, True), msg, False))
         out.append(case("secp-sigv-msg-changed", "sig_verify", "secp", sg, sec1(Q, True), msg + b"\0", False))
         out.append(case("secp-sigv-high-s", "sig_verify", "secp", ref_der(r, N - s) + bytes([fl]), sec1(Q, True), msg, False))
+        if i == 0 or T:
+            dv = der_variants(r, s, N)
+            for nm, der in (dv if T else [v for v in dv if v[0].startswith(("r-hi", "s-hi", "rs-plus", "r-pad0", "s-fix32", "trailing", "longform"))]):
+                out.append(case("secp-sigv-der-" + nm, "sig_verify", "secp", der + bytes([fl]), sec1(Q, True), msg, False))
         # crafted tuple with u1 G + u2 Q = infinity: r = -z/d (any s) - must be an error, never "OK"
         r_inf = (-z * pow(d, -1, N)) % N
         if r_inf:
@@ -338,6 +374,7 @@ def gen_cases(rng, tier):
         for (Q, z, r, s) in tuples:
             out.append(case(cname + "-verify-any", "verify", cname, r, s, Q, z))
         # valid ones and their malleations (random tuples are mostly invalid)
+        dvn = 0
         for _ in range(400 if not T else 3000):
             d, k, z = rng.randrange(1, n), rng.randrange(1, n), rng.randrange(0, 4 * n)
             R = ref_mul(cv, k, cv["G"])
@@ -367,6 +404,10 @@ def gen_cases(rng, tier):
                     out.append(case(cname + "-sigv-msg-ends-with-flag", "sig_verify", cname, ref_der(r3, s3) + bytes([fl]), sec1(Q, True), m3, False))
                     out.append(case(cname + "-sigv-msg-ends-with-flag", "sig_verify", cname, ref_der(r3, s3) + bytes([fl]), sec1(Q, True), m3[:-4], False))
                 out.append(case(cname + "-sigv-wrong-flag", "sig_verify", cname, sg[:-1] + bytes([fl ^ 2]), sec1(Q, True), msg, False))
+                if dvn < (40 if not T else 400):
+                    dvn += 1
+                    for nm, der in der_variants(r2, s2, n):
+                        out.append(case(cname + "-sigv-der-" + nm, "sig_verify", cname, der + bytes([fl]), sec1(Q, True), msg, False))
                 out.append(case(cname + "-sigv-wrong-key", "sig_verify", cname, sg, sec1(rng.choice(pts), True), msg, False))
                 r_inf = (-zz * pow(d, -1, n)) % n
                 if r_inf:
